@@ -496,3 +496,62 @@ def backward_calls(body, local):
                     seen.add(s)
                     todo.append(s)
     return seen, calls
+
+
+def param_locals(F, body, index):
+    """Locals of `body` holding parameter #index (0-based, `self` counts) of the *source-level* function — by position,
+    so renaming a parameter does not matter.  For the coroutine body of an `async fn` (or an `async move` block that is
+    the whole body, as produced by #[async_trait]) the parameter is the capture built from the parent's argument local."""
+    prep(body)
+    if body.kind != "closure" or not body.parent:
+        if index + 1 > body.argc:
+            return set()
+        return {index + 1}
+    parent = F.body(body.parent)
+    if parent is None:
+        return set()
+    prep(parent)
+    want = index + 1
+    copies = {}
+    for b in parent.blocks:
+        for s in b["stmts"]:
+            rv = s["rv"]
+            if len(s["d"]) == 1 and rv["k"] in ("use", "ref") :
+                p = rv["a"][1] if rv["k"] == "use" and rv["a"][0] in ("cp", "mv") else rv.get("p")
+                if p and len([e for e in p[1:] if e != "*"]) == 0:
+                    copies.setdefault(s["d"][0], p[0])
+
+    def root(l):
+        seen = set()
+        while l in copies and l not in seen:
+            seen.add(l)
+            l = copies[l]
+        return l
+    ks = []
+    for b in parent.blocks:
+        for s in b["stmts"]:
+            rv = s["rv"]
+            if rv["k"] == "agg" and rv["ak"] in ("coroutine", "closure", "coroutine_closure") and rv["adt"] == body.path:
+                for k, o in enumerate(rv["ops"]):
+                    l = op_local(o)
+                    if l is not None and root(l) == want:
+                        ks.append(k)
+    out = set()
+    for k in ks:
+        place = [1, ".upv%d" % k]
+        for b in body.blocks:
+            for s in b["stmts"]:
+                rv = s["rv"]
+                p = rv["a"][1] if rv["k"] == "use" and rv["a"][0] in ("cp", "mv") else rv.get("p") if rv["k"] == "ref" else None
+                if p and p[:2] == place and len(s["d"]) == 1:
+                    out.add(s["d"][0])
+    return out
+
+
+def locals_of_type(body, needle, exact=False):
+    """locals whose type string equals / contains `needle`"""
+    out = set()
+    for k, t in body.locals.items():
+        if (t == needle) if exact else (needle in t):
+            out.add(int(k))
+    return out
